@@ -177,7 +177,13 @@ def r_rpgap(db, rep):
                 continue
             r = strip(w["rhs"])
             # io = f(arr[io])
-            subs = [x for x in walk(r) if x["k"] == "ArraySubscriptExpr" and access_path(f, x["idx"]) == tgt]
+            exprs = [r]
+            for x in walk(r):       # a hoisted cell value:  const int v = arr[io]; ... io = -(v + 1);
+                if x["k"] == "DeclRefExpr" and x.get("dk") == "local":
+                    ini = single_def_init(f, x["d"])
+                    if ini is not None:
+                        exprs.append(ini)
+            subs = [x for e in exprs for x in walk(e) if x["k"] == "ArraySubscriptExpr" and access_path(f, x["idx"]) == tgt]
             if not subs or not (r["k"] == "UnaryOperator" and r["op"] == "-" or (r["k"] == "BinaryOperator" and r["op"] == "-")):
                 continue
             arr = subs[0]
